@@ -114,10 +114,12 @@ class Context:
         # Math object
         self._globals["Math"] = self._create_math_object()
         self._globals["Math"].hide_all()
+        self._globals["Math"]._prototype = self._object_prototype
 
         # JSON object
         self._globals["JSON"] = self._create_json_object()
         self._globals["JSON"].hide_all()
+        self._globals["JSON"]._prototype = self._object_prototype
 
         # Number constructor and methods
         self._globals["Number"] = self._create_number_constructor()
@@ -435,6 +437,10 @@ class Context:
 
         def get_prototype_of(*args):
             obj = args[0] if args else UNDEFINED
+            if obj is UNDEFINED or obj is NULL:
+                from .errors import JSTypeError
+
+                raise JSTypeError("Cannot convert undefined or null to object")
             if not isinstance(obj, JSObject):
                 return NULL
             return getattr(obj, "_prototype", NULL) or NULL
